@@ -6,7 +6,8 @@ correspondence : random assignment histories (valid, invalid, writes to the cach
                  dyadic cases, within a stated rounding tolerance otherwise; Gamma/pow fed as data, sqrt by a 2^-100 rational root)
                  the GENERATED heap program of model/utils.py (Gen/GenC20Calib.v: bodies of calibrate_model_parameter / calibration_fun /
                  run_default_calibration + the default_calibration table) run by vm_compute on the trial values the real brentq used
-                 (spied): returns / raises like the implementation, input object and returned parameters equal to the implementation's
+                 (spied) with the objective values it saw: returns / raises like the implementation -- RAISING calls included (setter,
+                 re-initialisation, model constructor, brentq's equal-sign ValueError) --, input object and returned parameters equal
 oracle         : implementation only -- (history + initialisation) == direct construction with the final values, field by field
                  and price by price; a rejected assignment raises ValueError and leaves __dict__ unchanged; the calibration
                  monitors (value in interval, |COS price - target| <= tol, input untouched, same type).
@@ -35,14 +36,19 @@ RULE = ("histories: 5 classes (HEM, Merton, VG, CGMY, BlackScholes) x N random c
         "objective at both ends of the interval is computed independently: sign change => must return (value in the interval, reprices "
         "within 5e-10*max(1,spot/100), BrentSpec verified on the spied trial values, input untouched, same type, new parameter object), equal strict signs => must raise ValueError; "
         "1/6 of the cases are forced no-root cases, 1/7 of the generic ones use an interval reaching into refused values; the run is "
-        "broken if fewer than 40 (quick) bracketed cases were calibrated. generated heap program: every monitored calibration call whose "
-        "objective either never raised or raised in the setter / the re-initialisation (decided by replaying the assignment on a copy; "
-        "raises of the model constructor or the pricer are outside the heap model: skipped and counted) becomes a vm_compute case -- "
-        "gen_calibrate_model_parameter on the spied trial values must be None exactly when the objective raised, else leave the input "
-        "object as the implementation left it and the working copy holding the last trial value; gen_run_default_calibration with the "
-        "GENERATED table's field on the spied trial values and the returned value must return a new object equal (full __dict__, same "
-        "tolerances as the histories) to the parameters of the implementation's returned model, all values inside the generated "
-        "table's interval up to one ulp")
+        "broken if fewer than 40 (quick) bracketed cases were calibrated. generated heap program: every monitored calibration call, RETURNING OR RAISING, that ended in a way the program can produce -- "
+        "returned; the objective raised in the setter / the re-initialisation / the exponential model's constructor (decided by replaying "
+        "the steps on a fresh copy); brentq's own ValueError 'f(a) and f(b) must have different signs' -- becomes a vm_compute case (a raise "
+        "of the pricer or of brentq's iteration is outside the heap model: skipped and counted; none occurs in the quick tier). The case "
+        "carries the interval, the trial values brentq used after the two ends, the objective value the implementation computed at each "
+        "(exact rational of the float) and, per value, whether the model constructor accepts the parameters (computed by the harness on a "
+        "fresh copy, outside the calibration). gen_calibrate_model_parameter must be None exactly when the implementation raised, else "
+        "leave the input object as the implementation left it and the working copy holding the last evaluated value; "
+        "gen_run_default_calibration with the GENERATED table's field and interval (the interval the implementation used must be the "
+        "table's up to one ulp) must be None exactly when run_default_calibration raised, else return a new object equal (full __dict__, "
+        "same tolerances as the histories) to the parameters of the implementation's returned model, all values inside the table's "
+        "interval up to one ulp. The two calls audit 4 found raising on /repo (default HEM model with the default bs_sigma = 0.10; "
+        "VG(nu=1.5, theta=0.3) with bs_sigma = 0.2) are fixed cases of the default stream; ~1/5 of the default cases raise")
 MODELLED = ["Parameters objects as records over Q (floats are exact rationals; rounding of / * sqrt in the derived-field formulas is "
             "covered by the stated tolerance of the correspondence, not by the theorems)",
             "np.sqrt, scipy.special.gamma, np.power: opaque functions (theorems hold for every interpretation); correspondence feeds "
@@ -58,42 +64,67 @@ MODELLED = ["Parameters objects as records over Q (floats are exact rationals; r
             "rpylib/model/utils.py: the default_calibration table and the BODIES of calibrate_model_parameter (+ inner calibration_fun), "
             "calibrate_model_parameter_to_atm_call and run_default_calibration are translated statement by statement on every run "
             "(harness/py2coq_c20.py, fail-closed on any statement outside the listed patterns) into a program over the heap operations of "
-            "Model/ParamsHeap.v (deepcopy / setattr / initialisation / price of the model built on an ADDRESS / brentq = any trial list); "
+            "Model/ParamsHeap.v (deepcopy / setattr / initialisation / op_model = the exponential model's constructor on an ADDRESS, which "
+            "raises when the class component model_ok refuses the record / price of that model / op_brentq_ab = f(a), f(b), return at a zero "
+            "end, ValueError when both end values are non-zero with the same sign (scipy 1.18 Zeros/brentq.c order), then any trial list); "
             "a model object is identified with the address of its Parameters object (the constructor keeps a reference); spot/r/d, the "
-            "product and the Black-Scholes target are checked to be passed through unchanged and abstracted as an arbitrary market price"]
+            "product and the Black-Scholes target are checked to be passed through unchanged and abstracted as an arbitrary market price",
+            "the exponential models' constructor guards (hem.py: eta1 <= 1; cgmy.py: m < 1 or (m = 1 and y <= 0); exponentialoflevymodel.py: "
+            "E[exp(L_1)] not finite / not real) are ONE opaque test model_ok : Rec -> bool (theorems hold for every interpretation; the "
+            "correspondence feeds the verdicts of the real constructors as data); they are not translated from the source"]
 ASSUMPTIONS = ["floats are modelled as rationals: NaN/inf values are outside the model (NaN is rejected by every predicate, inf is "
                "accepted by the non-strict/strict positivity predicates in the code)",
                "C20_calibration_spec_partial clause (4) assumes BrentSpec (brentq keeps its documented bracket promise) and an L-Lipschitz "
                "price on [a,b]; neither is proved; the repricing |COS price - target| <= 1e-8 is monitored on the implementation",
                "existence of a sign change over the default intervals is not proved; the monitors compute it per case",
-               "C20_default_calibration_must_succeed assumes that every trial value and the returned value lie in the generated table's "
-               "interval (brentq's documented behaviour: it evaluates the end points and points between them; monitored on every spied "
-               "run up to one ulp -- the table's bounds are the exact decimal literals of the source, Python uses the nearest doubles, "
-               "e.g. float(1e-12) < 10^-12) and that the input object is a constructed one (valid, no division by zero)",
-               "exceptions raised by the exponential model's constructor (E[exp(L_1)] guards) or by the pricer inside calibration_fun are "
-               "outside the heap model (the price is a total function of the record); the monitors require ValueError there"]
+               "C20_default_calibration_returns_if_nothing_raises assumes, as explicit hypotheses, the absence of every raise the generated "
+               "program can produce: trial/returned values in the generated table's interval (brentq's documented behaviour; monitored on "
+               "every spied run up to one ulp -- the table's bounds are the exact decimal literals of the source, Python uses the nearest "
+               "doubles, e.g. float(1e-12) < 10^-12), a constructed input object, model_ok on the parameters constructed with each evaluated "
+               "value, and end values of the objective not of the same strict sign. None of them is discharged for /repo's models: on the "
+               "default HEM model with the default bs_sigma the last one is false and run_default_calibration raises",
+               "exceptions raised by the COS pricer inside calibration_fun, brentq's RuntimeError (no convergence in 100 iterations) and "
+               "NaN objective values are outside the heap model (the price is a total rational function of the record); the monitors require "
+               "ValueError there; in the Q model 'same strict sign' is 0 < f(a)*f(b) exactly, brentq.c compares sign bits of floats"]
 THEOREM_NOTES = {
     "C20_calibration_spec_partial": "partial: heap facts (input untouched thanks to the deep copy, refused value => error, returned object = "
                                     "initialisation(input with f := x)) are proved for every list of trial values; repricing within L*delta is "
                                     "proved only UNDER BrentSpec + Lipschitz; existence of a root, brentq, the Lipschitz constant and the COS "
-                                    "price are not proved",
+                                    "price are not proved. Its 'must return when every value is assignable' clause is about the model of "
+                                    "Model/Params.v, whose brentq and model constructor cannot raise; the generated program has both raises and "
+                                    "refines this model whenever it returns (C20_generated_program, clauses 4-5)",
     "C20_construct_iff": "must-succeed direction: Built <-> valid && defined (ValueError / ZeroDivisionError characterised likewise); closes the "
                          "gap that the sync theorem is an implication from Built",
-    "C20_generated_program": "ties the hand-written heap model to the source: the statement-by-statement translation of the current bodies of "
-                             "calibrate_model_parameter / calibration_fun / run_default_calibration equals calibration_fun (on allocated "
-                             "addresses) / calibrate_model_parameter false / run_default_calibration of Model/Params.v for every class "
-                             "description, heap, trial list; proved by store/load algebra and induction over the trial list (not reflexivity); "
+    "C20_generated_program": "ties the hand-written heap models to the source: the statement-by-statement translation of the current bodies of "
+                             "calibrate_model_parameter / calibration_fun / run_default_calibration equals calibration_fun_g (on allocated "
+                             "addresses) / calibrate_model_parameter_g / run_default_calibration_g of Model/ParamsHeap.v (with the model "
+                             "constructor's raise and brentq's sign test) for every class description, heap, interval, trial list; and whenever "
+                             "the program returns, the unguarded model of Model/Params.v returns the same heap on the evaluated trial list "
+                             "([a;b] or a::b::xs), which carries C20_calibration_spec_partial over to the generated program; "
+                             "proved by store/load algebra and induction over the trial list (not reflexivity); "
                              "a source without the deep copy, with setattr/initialisation swapped or dropped yields a program for which the "
                              "proof fails; one that swallows the setter's exception, builds the model on another object or stops forwarding "
                              "bs_sigma is refused by the translator",
-    "C20_default_calibration_must_succeed": "must-succeed on the GENERATED table (field, [lo, hi]) and the GENERATED program for HEM, Merton, VG, "
-                                            "CGMY: constructed input + trial/returned values in [lo, hi] => returns, input untouched, returned "
-                                            "parameters = constructor applied to the final values; a table entry whose interval reaches "
-                                            "refused or dividing-by-zero values (e.g. VG sigma from 0.0, HEM sigma from -0.5), or naming a "
-                                            "field whose guard the interval violates, breaks the proof. Black-Scholes has no table entry "
-                                            "(F-C20-3); NOT proved: that brentq's trial values stay in the interval (monitored)",
-    "C20_default_calibration_must_raise": "converse for the lower side: a trial/returned value below the field's domain (HEM sigma < 0, Merton "
-                                          "mu_j < 0, VG sigma <= 0 incl. the division by zero at 0, CGMY c <= 0) makes the generated program raise",
+    "C20_default_calibration_returns_if_nothing_raises": "audit 4 B3: replaces C20_default_calibration_must_succeed, which was true only of a program "
+                                            "whose brentq and model constructor could not raise. On the GENERATED table (field, [lo, hi]) and the "
+                                            "GENERATED program for HEM, Merton, VG, CGMY: constructed input + trial/returned values in [lo, hi] + "
+                                            "the model constructor accepts the parameters constructed with every evaluated value + the objective's "
+                                            "end values are not of the same strict sign => returns, input untouched, returned parameters = "
+                                            "constructor applied to the final values and accepted by the model constructor. Each hypothesis is the "
+                                            "absence of one modelled raise; it is a conditional, NOT a claim that /repo's default calibration "
+                                            "succeeds (it raises for the default HEM model with bs_sigma = 0.10). A table entry whose interval "
+                                            "reaches refused or dividing-by-zero values (e.g. VG sigma from 0.0, HEM sigma from -0.5), or naming "
+                                            "a field whose guard the interval violates, breaks the proof. Black-Scholes has no table entry "
+                                            "(F-C20-3); NOT proved: that brentq's trial values stay in the interval (monitored); pricer raises, "
+                                            "non-convergence and NaN are outside the model",
+    "C20_default_calibration_must_raise": "the converse, per class on the generated table/program for a constructed input: (1) objective of the same "
+                                          "strict sign at both ends of the table's interval => raises (brentq's ValueError; /repo: default HEM, "
+                                          "bs_sigma 0.10); (2) model constructor refusing the parameters constructed at an end or at the returned "
+                                          "value => raises (/repo: VG nu=1.5 theta=0.3 at sigma=1.0); (3) any interval: an end or the returned "
+                                          "value below the field's domain (HEM sigma < 0, Merton mu_j < 0, VG sigma <= 0 incl. the division by "
+                                          "zero at 0, CGMY c <= 0) => raises. Together with the theorem above every hypothesis of 'returns' has "
+                                          "its raising counterpart except 'values in the interval' for interior trial values (a refused interior "
+                                          "trial is only reached when the end signs differ)",
     "C20_calibration_classes": "objective independent of earlier trial values; returned parameters = direct construction (sync with one assignment)",
     "C20_init_eq_reinit": "about the two py2coq translations (from __init__ and from initialisation) of the current source; reflexivity because "
                           "the two source expressions are currently identical -- an edit of one of them breaks the proof",
@@ -485,53 +516,64 @@ Definition bs_case c := match c with (a, ops, fl, b, tb, tag, af, ta) =>
 
 # the GENERATED heap program of model/utils.py (Gen/GenC20Calib.v) run on the trial values the real brentq used
 COQ_HEADER_CALIB = COQ_HEADER.replace("Model.Params.", "Model.Params Model.ParamsHeap Gen.GenC20Calib.") + r"""
-(* calibrate_model_parameter on the heap [input]: None exactly when the objective raised in the setter / the re-initialisation;
-   otherwise the input object (address 0) is as the implementation left it and the working copy (address 1) holds the last trial value *)
+(* class components fed as DATA: the objective value the implementation computed at each trial value (price - market, market := 0) and
+   whether the exponential model's constructor accepted the parameters built with that value (computed by the harness on a fresh copy,
+   outside the calibration); both keyed by the value of the calibrated field (position k of `fields`) *)
+Definition ptab_price {Rec : Type} (fields : Rec -> list Q) (k : nat) (pt : list (Q * Q)) (r : Rec) : Q := qlookup1 pt (nth k (fields r) 0).
+Definition gtab_ok {Rec : Type} (fields : Rec -> list Q) (k : nat) (gt : list (Q * Q)) (r : Rec) : bool := Qeq_bool (qlookup1 gt (nth k (fields r) 0)) 1.
+(* calibrate_model_parameter on the heap [input] with the interval ab and the trial values xs brentq used AFTER the two ends: None exactly
+   when the implementation raised (setter / re-initialisation / model constructor inside the objective, or brentq's own ValueError on equal
+   strict end signs); otherwise the input object (address 0) is as the implementation left it and the working copy (address 1) holds the
+   last evaluated value *)
 Definition trials_check {Rec Field : Type} (set : Rec -> Field -> Q -> Rec * bool) (init : Rec -> outcome Rec) (fields : Rec -> list Q)
-   (r0 : outcome Rec) (c : Field * nat * list Q * bool * list Q * list Q) : bool :=
+   (r0 : outcome Rec) (c : Field * nat * (Q * Q) * list Q * list (Q * Q) * list (Q * Q) * bool * list Q * list Q) : bool :=
   match c, r0 with
-  | (f, k, xs, raised, before, tb), Built r0 =>
-      match gen_calibrate_model_parameter Rec Field set init (fun _ => 0) r0 [r0] 0%nat f 0 xs with
+  | (f, k, ab, xs, pt, gt, raised, before, tb), Built r0 =>
+      match gen_calibrate_model_parameter Rec Field set init (ptab_price fields k pt) r0 (gtab_ok fields k gt) [r0] 0%nat f ab 0 xs with
       | Some h' => negb raised && closelist (fields (load Rec r0 h' 0%nat)) before tb
-                   && match rev xs with [] => true | y :: _ => Qeq_bool (nth k (fields (load Rec r0 h' 1%nat)) 0) y end
+                   && match rev (fst ab :: snd ab :: xs) with [] => true | y :: _ => Qeq_bool (nth k (fields (load Rec r0 h' 1%nat)) 0) y end
       | None => raised
-      end
-  | _, _ => false
-  end.
-(* run_default_calibration with the field of the GENERATED table: returns; input as the implementation left it; the returned model's
-   parameters (a new address) are the implementation's returned parameters *)
-Definition default_check {Rec Field : Type} (set : Rec -> Field -> Q -> Rec * bool) (init : Rec -> outcome Rec) (fields : Rec -> list Q)
-   (f : Field) (r0 : outcome Rec) (c : list Q * Q * list Q * list Q * list Q * list Q) : bool :=
-  match c, r0 with
-  | (xs, x, before, tb, after, ta), Built r0 =>
-      match gen_run_default_calibration Rec Field set init (fun _ => 0) r0 [r0] 0%nat f 0 xs x with
-      | Some (h', q) => Nat.eqb q 2 && closelist (fields (load Rec r0 h' 0%nat)) before tb && closelist (fields (load Rec r0 h' q)) after ta
-      | None => false
       end
   | _, _ => false
   end.
 (* one-ulp slack: the table's bounds are the exact decimal literals of the source, the implementation uses the nearest doubles *)
 Definition in_interval (lo hi : Q) (xs : list Q) : bool :=
   forallb (fun y => Qle_bool (lo - Qabs lo * (1 # 2 ^ 52)) y && Qle_bool y (hi + Qabs hi * (1 # 2 ^ 52))) xs.
-Definition hem_trials c := match c with (a, f, k, xs, rs, b, tb) => trials_check hem_set hem_initialisation_checked hem_fields (hem_ctor a) (f, k, xs, rs, b, tb) end.
-Definition merton_trials c := match c with (a, f, k, xs, rs, b, tb) => trials_check merton_set merton_initialisation_checked merton_fields (merton_ctor a) (f, k, xs, rs, b, tb) end.
-Definition vg_trials c := match c with (a, f, k, xs, rs, b, tb) => trials_check vg_set (vg_initialisation_checked qsqrt_hi) vg_fields (vg_ctor a) (f, k, xs, rs, b, tb) end.
-Definition cgmy_trials c := match c with (g1, p2, (a, f, k, xs, rs, b, tb)) =>
+Definition near (lo a : Q) : bool := Qle_bool (Qabs (a - lo)) (Qabs lo * (1 # 2 ^ 52)).
+(* run_default_calibration with the field AND the interval of the GENERATED table (the interval the implementation passed to brentq must
+   be the table's, up to one ulp): returns exactly when the implementation returned -- then the input is as the implementation left it,
+   the returned model's parameters (a new address) are the implementation's returned parameters and every evaluated value lies in the
+   table's interval; None exactly when the implementation raised (RAISING calls are cases too) *)
+Definition default_check {Rec Field : Type} (set : Rec -> Field -> Q -> Rec * bool) (init : Rec -> outcome Rec) (fields : Rec -> list Q)
+   (f : Field) (lo hi : Q) (r0 : outcome Rec) (c : nat * (Q * Q) * list Q * Q * list (Q * Q) * list (Q * Q) * bool * list Q * list Q * list Q * list Q) : bool :=
+  match c, r0 with
+  | (k, ab, xs, x, pt, gt, returned, before, tb, after, ta), Built r0 =>
+      near lo (fst ab) && near hi (snd ab) &&
+      match gen_run_default_calibration Rec Field set init (ptab_price fields k pt) r0 (gtab_ok fields k gt) [r0] 0%nat f ab 0 xs x with
+      | Some (h', q) => returned && Nat.eqb q 2 && in_interval lo hi (x :: xs)
+                        && closelist (fields (load Rec r0 h' 0%nat)) before tb && closelist (fields (load Rec r0 h' q)) after ta
+      | None => negb returned
+      end
+  | _, _ => false
+  end.
+Definition hem_trials c := match c with (a, f, k, ab, xs, pt, gt, rs, b, tb) => trials_check hem_set hem_initialisation_checked hem_fields (hem_ctor a) (f, k, ab, xs, pt, gt, rs, b, tb) end.
+Definition merton_trials c := match c with (a, f, k, ab, xs, pt, gt, rs, b, tb) => trials_check merton_set merton_initialisation_checked merton_fields (merton_ctor a) (f, k, ab, xs, pt, gt, rs, b, tb) end.
+Definition vg_trials c := match c with (a, f, k, ab, xs, pt, gt, rs, b, tb) => trials_check vg_set (vg_initialisation_checked qsqrt_hi) vg_fields (vg_ctor a) (f, k, ab, xs, pt, gt, rs, b, tb) end.
+Definition cgmy_trials c := match c with (g1, p2, (a, f, k, ab, xs, pt, gt, rs, b, tb)) =>
   let fg := qlookup1 g1 in let fp := qlookup2 p2 in
-  trials_check cgmy_set (cgmy_initialisation_checked fg fp) cgmy_fields (cgmy_ctor fg fp a) (f, k, xs, rs, b, tb) end.
-(* the trial values and the returned value of a default calibration lie in the generated table's interval (hypothesis of C20_default_calibration_must_succeed) *)
-Definition hem_default c := match c with (a, xs, x, b, tb, af, ta) => in_interval dc_hem_lo dc_hem_hi (x :: xs) &&
-  default_check hem_set hem_initialisation_checked hem_fields dc_hem_field (hem_ctor a) (xs, x, b, tb, af, ta) end.
-Definition merton_default c := match c with (a, xs, x, b, tb, af, ta) => in_interval dc_merton_lo dc_merton_hi (x :: xs) &&
-  default_check merton_set merton_initialisation_checked merton_fields dc_merton_field (merton_ctor a) (xs, x, b, tb, af, ta) end.
-Definition vg_default c := match c with (a, xs, x, b, tb, af, ta) => in_interval dc_vg_lo dc_vg_hi (x :: xs) &&
-  default_check vg_set (vg_initialisation_checked qsqrt_hi) vg_fields dc_vg_field (vg_ctor a) (xs, x, b, tb, af, ta) end.
-Definition cgmy_default c := match c with (g1, p2, (a, xs, x, b, tb, af, ta)) =>
-  let fg := qlookup1 g1 in let fp := qlookup2 p2 in in_interval dc_cgmy_lo dc_cgmy_hi (x :: xs) &&
-  default_check cgmy_set (cgmy_initialisation_checked fg fp) cgmy_fields dc_cgmy_field (cgmy_ctor fg fp a) (xs, x, b, tb, af, ta) end.
+  trials_check cgmy_set (cgmy_initialisation_checked fg fp) cgmy_fields (cgmy_ctor fg fp a) (f, k, ab, xs, pt, gt, rs, b, tb) end.
+Definition hem_default c := match c with (a, k, ab, xs, x, pt, gt, rt, b, tb, af, ta) =>
+  default_check hem_set hem_initialisation_checked hem_fields dc_hem_field dc_hem_lo dc_hem_hi (hem_ctor a) (k, ab, xs, x, pt, gt, rt, b, tb, af, ta) end.
+Definition merton_default c := match c with (a, k, ab, xs, x, pt, gt, rt, b, tb, af, ta) =>
+  default_check merton_set merton_initialisation_checked merton_fields dc_merton_field dc_merton_lo dc_merton_hi (merton_ctor a) (k, ab, xs, x, pt, gt, rt, b, tb, af, ta) end.
+Definition vg_default c := match c with (a, k, ab, xs, x, pt, gt, rt, b, tb, af, ta) =>
+  default_check vg_set (vg_initialisation_checked qsqrt_hi) vg_fields dc_vg_field dc_vg_lo dc_vg_hi (vg_ctor a) (k, ab, xs, x, pt, gt, rt, b, tb, af, ta) end.
+Definition cgmy_default c := match c with (g1, p2, (a, k, ab, xs, x, pt, gt, rt, b, tb, af, ta)) =>
+  let fg := qlookup1 g1 in let fp := qlookup2 p2 in
+  default_check cgmy_set (cgmy_initialisation_checked fg fp) cgmy_fields dc_cgmy_field dc_cgmy_lo dc_cgmy_hi (cgmy_ctor fg fp a) (k, ab, xs, x, pt, gt, rt, b, tb, af, ta) end.
 """
-TRIALS_TY = "list Q * {F} * nat * list Q * bool * list Q * list Q"
-DEFAULT_TY = "list Q * list Q * Q * list Q * list Q * list Q * list Q"
+TRIALS_TY = "list Q * {F} * nat * (Q * Q) * list Q * list (Q * Q) * list (Q * Q) * bool * list Q * list Q"
+DEFAULT_TY = "list Q * nat * (Q * Q) * list Q * Q * list (Q * Q) * list (Q * Q) * bool * list Q * list Q * list Q * list Q"
 
 
 def _coq_side_calib(res, coq):
@@ -690,8 +732,10 @@ def _calibration_monitors(res, rng, n_default, n_generic, viol):
         try:
             return ("value", fun())
         except ValueError as e:
+            spied["cause"] = str(e.__cause__) if e.__cause__ is not None else ""
             return ("ValueError", str(e))
         except Exception as e:  # noqa
+            spied["cause"] = "other"
             return ("other", f"{type(e).__name__}: {e}")
         finally:
             scipy.optimize.brentq = real_brentq
@@ -720,8 +764,51 @@ def _calibration_monitors(res, rng, n_default, n_generic, viol):
             out.append(pr)
         return out
 
-    def collect_trials(mt, kw, par, model):
-        """calibrate_model_parameter: model = None exactly when the objective raised in the setter / the re-initialisation on a trial value"""
+    def ctor_accepts(model, par, x):
+        """on a FRESH copy of the input's parameters (outside the calibration): None if the assignment / re-initialisation raises,
+        else whether the exponential model's constructor accepts the parameters object (ValueError = refused)"""
+        q = copy.deepcopy(model.levy_model.parameters)
+        try:
+            setattr(q, par, x)
+            q.initialisation()
+        except (ValueError, ZeroDivisionError):
+            return None
+        try:
+            type(model)(spot=model.spot, r=model.r, d=model.d, parameters=q)
+            return True
+        except ValueError:
+            return False
+
+    def raise_in_model(model, par, calls, out):
+        """is the way this calibration call ended one the generated heap program can produce?  returned; the objective raised in the
+        setter / the re-initialisation / the model constructor; brentq's own ValueError on equal strict end signs.  Anything else (the
+        pricer raised, no convergence, ...) is outside the model: skipped and counted."""
+        if out[0] == "value":
+            return not any(r for _, r in calls)
+        if calls and calls[-1][1]:
+            return ctor_accepts(model, par, calls[-1][0]) is not True
+        return len(calls) == 2 and "different signs" in (spied.get("cause") or "")
+
+    def data_tables(model, par, calls, extra=()):
+        """objective values the implementation computed (exact rationals of the floats), constructor verdicts computed independently"""
+        pt = lst([f"({qlit(x)}, {qlit(v)})" for x, v in (spied.get("trials") or [])])
+        seen, gt = set(), []
+        for x in [c[0] for c in calls] + list(extra):
+            if x in seen:
+                continue
+            seen.add(x)
+            acc = ctor_accepts(model, par, x)
+            if acc is not None:
+                gt.append(f"({qlit(x)}, {qlit(1.0 if acc else 0.0)})")
+        return pt, lst(gt)
+
+    def ends_first(calls, ab):
+        """brentq evaluates f(a) then f(b) before anything else (the generated program does the same)"""
+        want = [float(ab[0]), float(ab[1])]
+        return [c[0] for c in calls[:2]] == want[:len(calls[:2])] and len(calls) >= 1
+
+    def collect_trials(mt, kw, par, model, ab, out):
+        """calibrate_model_parameter: the generated program must be None exactly when the implementation raised"""
         name = NAME[mt]
         info = _classes()[name]
         calls = list(spied.get("calls") or [])
@@ -731,15 +818,12 @@ def _calibration_monitors(res, rng, n_default, n_generic, viol):
         if any(r for _, r in calls[:-1]):
             res.broke("calibration monitors", "harness: brentq went on after the objective raised")
             return
-        if calls[-1][1]:      # which statement of calibration_fun raised?  replay the assignment + re-initialisation on a copy
-            q = copy.deepcopy(model.levy_model.parameters)
-            try:
-                setattr(q, par, calls[-1][0])
-                q.initialisation()
-                res.bump("coq_calibration_case", "skipped (raised by the model constructor / pricer: outside the heap model)")
-                return
-            except (ValueError, ZeroDivisionError):
-                pass
+        if not ends_first(calls, ab):
+            res.broke("calibration monitors", f"brentq did not evaluate the ends of {ab} first: {[c[0] for c in calls[:2]]}")
+            return
+        if not raise_in_model(model, par, calls, out):
+            res.bump("coq_calibration_case", "skipped (raised by the pricer / the root finder's iteration: outside the heap model)")
+            return
         prim = [float(kw[f]) for f in info["prim"]]
         tp = trial_prims(name, info, prim, par, calls)
         if tp is None or not (_finite(prim) and _coq_safe(name, prim)) or _zero_div(name, prim):
@@ -748,45 +832,73 @@ def _calibration_monitors(res, rng, n_default, n_generic, viol):
         before = _fields_of(model.levy_model.parameters, info)
         tb = [0.0] * len(info["prim"]) + _der_tols(name, prim)
         k = info["prim"].index(par)
-        lit = "(" + ", ".join([lst([qlit(v) for v in prim]), info["ctor"][k], natlit(k), lst([qlit(x) for x, _ in calls]), blit(calls[-1][1]),
+        pt, gt = data_tables(model, par, calls)
+        raised = out[0] != "value"
+        lit = "(" + ", ".join([lst([qlit(v) for v in prim]), info["ctor"][k], natlit(k), f"({qlit(float(ab[0]))}, {qlit(float(ab[1]))})",
+                               lst([qlit(x) for x, _ in calls[2:]]), pt, gt, blit(raised),
                                lst([qlit(float(v)) for v in before]), lst([qlit(t) for t in tb])]) + ")"
         coq["trials"][name].append(with_tables(name, [prim] + tp, lit))
-        res.bump("coq_calibration_case", f"trials {name}.{par}: {'objective raised' if calls[-1][1] else 'all trial values assignable'}")
+        why = "returned" if not raised else ("objective raised" if calls[-1][1] else "brentq: equal strict signs at the ends")
+        res.bump("coq_calibration_case", f"trials {name}.{par}: {why}")
 
-    def collect_default(mt, kw, model, cm, x):
-        """run_default_calibration returned: the program run on the spied trial values and the returned value gives the returned object"""
+    def collect_default(mt, kw, model, out):
+        """run_default_calibration, RETURNING OR RAISING: the generated program run with the generated table's field and interval on the spied
+        trial values (and the returned value) returns the implementation's object / is None exactly when the implementation raised"""
         name = NAME[mt]
         info = _classes()[name]
-        par = U_.default_calibration[mt].parameter
+        cfg = U_.default_calibration[mt]
+        par, ab = cfg.parameter, cfg.parameter_interval
         calls = list(spied.get("calls") or [])
+        returned = out[0] == "value"
+        if not calls or any(r for _, r in calls[:-1]) or not ends_first(calls, ab):
+            res.broke("calibration monitors", f"run_default_calibration: brentq did not evaluate the ends of the table's interval {ab} first: {calls[:2]}")
+            return
+        if not raise_in_model(model, par, calls, out):
+            res.bump("coq_calibration_case", "skipped (raised by the pricer / the root finder's iteration: outside the heap model)")
+            return
         prim = [float(kw[f]) for f in info["prim"]]
+        x = float(getattr(out[1].levy_model.parameters, par)) if returned else float(ab[0])
         final = list(prim)
-        final[info["prim"].index(par)] = float(x)
+        final[info["prim"].index(par)] = x
         tp = trial_prims(name, info, prim, par, calls)
-        if tp is None or any(r for _, r in calls) or not all(_finite(pr) and _coq_safe(name, pr) and not _zero_div(name, pr) for pr in (prim, final)):
+        if tp is None or not all(_finite(pr) and _coq_safe(name, pr) and not _zero_div(name, pr) for pr in (prim, final)):
             res.bump("coq_calibration_case", "skipped (non-finite / float-specific value)")
             return
         before = _fields_of(model.levy_model.parameters, info)
-        after = _fields_of(cm.levy_model.parameters, info)
+        after = _fields_of(out[1].levy_model.parameters, info) if returned else []
         z = [0.0] * len(info["prim"])
-        lit = "(" + ", ".join([lst([qlit(v) for v in prim]), lst([qlit(v) for v, _ in calls]), qlit(float(x)),
+        pt, gt = data_tables(model, par, calls, extra=[x])
+        lit = "(" + ", ".join([lst([qlit(v) for v in prim]), natlit(info["prim"].index(par)), f"({qlit(float(ab[0]))}, {qlit(float(ab[1]))})",
+                               lst([qlit(v) for v, _ in calls[2:]]), qlit(x), pt, gt, blit(returned),
                                lst([qlit(float(v)) for v in before]), lst([qlit(t) for t in z + _der_tols(name, prim)]),
-                               lst([qlit(float(v)) for v in after]), lst([qlit(t) for t in z + _der_tols(name, final)])]) + ")"
+                               lst([qlit(float(v)) for v in after]), lst([qlit(t) for t in (z + _der_tols(name, final) if returned else [])])]) + ")"
         coq["default"][name].append(with_tables(name, [prim, final] + tp, lit))
-        res.bump("coq_calibration_case", f"default {name}: returned")
+        why = "returned" if returned else ("model constructor refused" if calls[-1][1] else "brentq: equal strict signs at the ends")
+        res.bump("coq_calibration_case", f"default {name}: {why}")
+        res.bump("default_case_outcome", "returned" if returned else "raised")
 
     mts = [ModelType.HEM, ModelType.MERTON, ModelType.VG, ModelType.CGMY]
     with warnings.catch_warnings():
         warnings.simplefilter("ignore")
-        for it in range(n_default):
-            mt = mts[it % 4]
-            model, kw = make(mt)
-            T = rng.choice([1 / 12, 0.25, 0.5, 1.0, 2.0])
-            vol = round(rng.uniform(0.12, 0.35), 3)
+        # audit 4, B3: the two calls on which /repo raises -- the library's default HEM model with the default bs_sigma = 0.10 (its jump
+        # volatility alone is 0.113: same sign at both ends, brentq's ValueError) and VG(nu = 1.5, theta = 0.3), bs_sigma = 0.2 (the model
+        # constructor refuses sigma = 1.0).  They are fed to default_check like every other raising call: the program must be None.
+        fixed = [(ModelType.HEM, dict(spot=100.0, r=0.02, d=0.0, sigma=0.05, p=0.6, eta1=20.0, eta2=25.0, intensity=3.0), 1.0, 0.10),
+                 (ModelType.VG, dict(spot=100.0, r=0.02, d=0.0, sigma=0.1, nu=1.5, theta=0.3), 1.0, 0.2)]
+        for it in range(-len(fixed), n_default):
+            if it < 0:
+                mt, kw, T, vol = fixed[it]
+                kw = dict(kw)
+                model = U_.helper_model(mt)(**kw)
+            else:
+                mt = mts[it % 4]
+                model, kw = make(mt)
+                T = rng.choice([1 / 12, 0.25, 0.5, 1.0, 2.0])
+                vol = round(rng.uniform(0.12, 0.35), 3)
             cfg = U_.default_calibration[mt]
             a, b = cfg.parameter_interval
             target = bs_price(model, model.spot, T, vol)
-            must_raise = it % 6 == 5            # forced no-sign-change case: no admissible value reaches this target
+            must_raise = it >= 0 and it % 6 == 5            # forced no-sign-change case: no admissible value reaches this target
             if must_raise:
                 vol = 3.0 if mt != ModelType.MERTON else 0.001
                 target = bs_price(model, model.spot, T, vol)
@@ -800,11 +912,12 @@ def _calibration_monitors(res, rng, n_default, n_generic, viol):
             out = attempt(lambda: U_.run_default_calibration(model, T, vol))
             if snapshot(model) != snap or float(np.squeeze(COSPricer(model).call(np.array([model.spot]), T))) != price_before:
                 viol("run_default_calibration modified its input model", **rep)
+            collect_default(mt, kw, model, out)
+            if it < 0 and out[0] == "value":
+                res.broke("calibration monitors", "harness: a call recorded by audit 4 as raising on /repo returned (fixed case outdated)")
             if not judge(out, cls_, "run_default_calibration", rep):
-                collect_trials(mt, kw, cfg.parameter, model)
                 continue
             cm = out[1]
-            collect_default(mt, kw, model, cm, getattr(cm.levy_model.parameters, cfg.parameter))
             x = getattr(cm.levy_model.parameters, cfg.parameter)
             got = float(np.squeeze(COSPricer(cm).call(np.array([cm.spot]), T)))
             tol = CAL_TOL * max(1.0, model.spot / 100)
@@ -868,7 +981,7 @@ def _calibration_monitors(res, rng, n_default, n_generic, viol):
                 out = attempt(lambda: U_.calibrate_model_parameter(model, par, (a, b), product, market))
             if snapshot(model) != snap:
                 viol("calibrate_model_parameter modified its input model", **rep)
-            collect_trials(mt, kw, par, model)
+            collect_trials(mt, kw, par, model, (a, b), out)
             if not judge(out, cls_, "calibrate_model_parameter", rep):
                 continue
             x = out[1]
@@ -923,7 +1036,7 @@ def _calibration_monitors(res, rng, n_default, n_generic, viol):
                     continue
                 snap = snapshot(model)
                 out = attempt(lambda: U_.calibrate_model_parameter(model, par, (a, b), product, market))
-                collect_trials(mt, dict(kw), par, model)
+                collect_trials(mt, dict(kw), par, model, (a, b), out)
                 res.bump("calibration_outcome", f"{mt.name}.{par}: refused end -> {out[0]}")
                 if out[0] == "value":
                     x = float(out[1])
@@ -953,7 +1066,7 @@ def _calibration_monitors(res, rng, n_default, n_generic, viol):
                        maturity=1.0, strike=100.0, payoff="CALL", bs_sigma=0.2, market_price=market, ends="division by zero at an end")
             res.count(("zero-div interval", mt.name, par), kind="calibrate_model_parameter division-by-zero interval")
             out = attempt(lambda: U_.calibrate_model_parameter(model, par, (a, b), product, market))
-            collect_trials(mt, dict(kw), par, model)
+            collect_trials(mt, dict(kw), par, model, (a, b), out)
             res.bump("calibration_outcome", f"{mt.name}.{par}: division by zero at an end -> {out[0]} {str(out[1])[:17] if out[0] != 'value' else ''}")
             if out[0] == "value":
                 viol("calibration returns a value although the objective cannot be evaluated at an end of the interval (division by zero)", **rep)
@@ -1131,17 +1244,25 @@ LEVEL_TEXT = ("Proof (partial for the calibration clause): Coq theorems, closed 
               "values, the input object is untouched (the variant without deepcopy is shown to modify it), a refused value raises, the "
               "returned parameters are a new object equal to direct construction; IF brentq keeps its bracket promise and the price is "
               "L-Lipschitz THEN the value is in [a,b] and the model reprices within L*delta; (5) the bodies of calibrate_model_parameter, its "
-              "inner objective and run_default_calibration, translated statement by statement from /repo on every run, are proved equal to "
-              "that heap model, and on the generated default_calibration table the default calibration of a constructed HEM / Merton / VG / "
-              "CGMY object MUST return (new object = constructor on the final values, input untouched) for all trial values inside the "
-              "table's interval and MUST raise for a value below the field's domain. Existence of a root, brentq, the Lipschitz "
+              "inner objective and run_default_calibration, translated statement by statement from /repo on every run -- including the raise "
+              "of the exponential model's constructor (an opaque test of the parameters) and brentq's ValueError when the objective has the "
+              "same strict sign at both ends --, are proved equal to a guarded heap model that refines the one of (4); on the generated "
+              "default_calibration table the default calibration of a constructed HEM / Merton / VG / CGMY object returns (new object = "
+              "constructor on the final values, input untouched) IF none of the modelled raises occurs -- all evaluated values inside the "
+              "table's interval, the model constructor accepts each of them, the end values are not of the same strict sign -- and raises "
+              "when the end values have the same strict sign, when the model constructor refuses an end or the returned value, or when an "
+              "end / the returned value is below the field's domain. This does NOT say that the default calibration succeeds on the "
+              "library's models: run_default_calibration(default HEM model, default bs_sigma = 0.10) raises ValueError on /repo, and is a "
+              "case of the correspondence. Existence of a root, brentq's iteration, the Lipschitz "
               "constant and the COS price are NOT proved: the calibration functions are monitored on the implementation over a documented box "
               "with independently computed end-point signs (must return / must raise). Model and implementation are compared by vm_compute on "
               "~600 random assignment histories per run (full __dict__), and the generated calibration program is run on the trial values "
-              "spied from the real brentq in ~130 calibration calls per run (returns/raises alike, input and returned objects equal).")
+              "and objective values spied from the real brentq in ~130 calibration calls per run, raising calls included (returns/raises alike, input "
+              "and returned objects equal).")
 LEVEL_NOTE = ("Trusted: Coq kernel + vm_compute; py2coq (fail-closed; its output is also run against the implementation); floats modelled "
               "as rationals (rounding covered by the correspondence tolerance: 0 on dyadic cases, <= 8 ulp of the formula's terms otherwise); "
-              "np.sqrt/Gamma/np.power opaque; heap operations (deepcopy = append a copy, model object = address of its parameters), brentq "
-              "specification and the COS price are specified, not verified; harness/py2coq_c20.py (statement patterns of model/utils.py).")
+              "np.sqrt/Gamma/np.power opaque; heap operations (deepcopy = append a copy, model object = address of its parameters), brentq's "
+              "call order / sign test / bracket specification, the model constructor's test (opaque; verdicts fed as data) and the COS price "
+              "are specified, not verified; harness/py2coq_c20.py (statement patterns of model/utils.py).")
 TECHNIQUE = ("Coq proof (induction over assignment histories and trial lists on py2coq-generated guards, derived-field expressions, default table and "
              "calibration program) + vm_compute correspondence (histories; generated calibration program on spied brentq trials) + calibration monitors")
